@@ -215,10 +215,18 @@ func (cc *clientConn) RoundTrip(req *http.Request) (_ *http.Response, err error)
 			extractTrailerFromHeader(h, trailer)
 			delete(h, "Trailer")
 
-			if (contentLength != 0 && req.Method != http.MethodHead) || len(trailer) > 0 {
+			// A response to a HEAD request and a 304 response never contain
+			// content, whatever Content-Length they carry: there, the field
+			// describes the selected representation.
+			// https://www.rfc-editor.org/rfc/rfc9110#section-8.6-7
+			bodyLen := contentLength
+			if req.Method == http.MethodHead || statusCode == http.StatusNotModified {
+				bodyLen = 0
+			}
+			if bodyLen != 0 || len(trailer) > 0 {
 				rt.respBody = &bodyReader{
 					st:      st,
-					remain:  contentLength,
+					remain:  bodyLen,
 					trailer: trailer,
 				}
 			} else {
